@@ -274,18 +274,16 @@ func (e *Engine) cvQuote(cv []cvChar) []cvChar {
 	return append(out, cvChar{b: '"'})
 }
 
+// cvToLower / cvToUpper map symbolic characters with an if-then-else term (no fork).
 func (e *Engine) cvToLower(cv []cvChar) []cvChar {
 	out := make([]cvChar, len(cv))
 	for i, c := range cv {
-		switch {
-		case c.sym == nil:
+		if c.sym == nil {
 			out[i] = cvChar{b: strings.ToLower(string([]byte{c.b}))[0]}
-		case e.decide(And(Le(KInt64('A'), c.sym), Le(c.sym, KInt64('Z')))):
-			t := Add(c.sym, KInt64(32))
-			out[i] = cvChar{sym: t}
-		default:
-			out[i] = c
+			continue
 		}
+		up := And(Le(KInt64('A'), c.sym), Le(c.sym, KInt64('Z')))
+		out[i] = cvChar{sym: e.name(Ite(up, Add(c.sym, KInt64(32)), c.sym))}
 	}
 	return out
 }
@@ -293,16 +291,47 @@ func (e *Engine) cvToLower(cv []cvChar) []cvChar {
 func (e *Engine) cvToUpper(cv []cvChar) []cvChar {
 	out := make([]cvChar, len(cv))
 	for i, c := range cv {
-		switch {
-		case c.sym == nil:
+		if c.sym == nil {
 			out[i] = cvChar{b: strings.ToUpper(string([]byte{c.b}))[0]}
-		case e.decide(And(Le(KInt64('a'), c.sym), Le(c.sym, KInt64('z')))):
-			out[i] = cvChar{sym: Sub(c.sym, KInt64(32))}
-		default:
-			out[i] = c
+			continue
 		}
+		lo := And(Le(KInt64('a'), c.sym), Le(c.sym, KInt64('z')))
+		out[i] = cvChar{sym: e.name(Ite(lo, Sub(c.sym, KInt64(32)), c.sym))}
 	}
 	return out
+}
+
+// cvGlob: gobwas/glob semantics without separators for patterns of literals, '*' (any sequence) and
+// '?' (any one character); the result is a Boolean term over the symbolic characters (no fork).
+func (e *Engine) cvGlob(pat string, cv []cvChar) *Term {
+	memo := map[[2]int]*Term{}
+	var m func(pi, si int) *Term
+	m = func(pi, si int) *Term {
+		k := [2]int{pi, si}
+		if t, ok := memo[k]; ok {
+			return t
+		}
+		var r *Term
+		switch {
+		case pi == len(pat):
+			r = KBool(si == len(cv))
+		case pat[pi] == '*':
+			alts := []*Term{}
+			for j := si; j <= len(cv); j++ {
+				alts = append(alts, m(pi+1, j))
+			}
+			r = Or(alts...)
+		case si == len(cv):
+			r = tFalse
+		case pat[pi] == '?':
+			r = m(pi+1, si+1)
+		default:
+			r = And(Eq(cv[si].code(), KInt64(int64(pat[pi]))), m(pi+1, si+1))
+		}
+		memo[k] = r
+		return r
+	}
+	return m(0, 0)
 }
 
 // ---------- regular expressions on character vectors ----------
